@@ -243,6 +243,28 @@ def rig_scenario(r, idx):
                 threads=r.choice([1, 4, 8]))
 
 
+def directed_rig_scenarios():
+    """always run, quick tier included: a forced policy (what --retries N builds, and a forced policy with
+    its own delay) x tests whose own policy -- per-test override or profile -- is fixed with a delay /
+    fixed with delay and jitter / exponential, x a failing first attempt. (Audit mutation M6: the
+    forced policy replaced only the count when the test's own policy was Fixed{delay, jitter}.)"""
+    def t(pol, pat, dflt=False):
+        code = lambda ok: 0 if ok else 1
+        return dict(policy=pol, pattern=pat, dflt=dflt, default=dict(kind="exit", code=code(dflt)),
+                    attempts={k + 1: dict(kind="exit", code=code(ok)) for k, ok in enumerate(pat)})
+    fixed = lambda c, d, j=False: dict(kind="fixed", count=c, delay=d, jitter=j, max_delay=None)
+    out = []
+    for force in (fixed(2, 0), fixed(1, 7 * MS)):
+        out.append(dict(profile_retries=fixed(3, 25 * MS), force=force, leak_timeout_ms=100, threads=4, bins={"ba": {
+            "m6_own_fixed": t(fixed(4, 30 * MS), [False, True]),
+            "m6_own_fixed_jitter": t(fixed(4, 40 * MS, True), [False, False, False, False]),
+            "m6_own_exp": t(dict(kind="exp", count=3, delay=20 * MS, jitter=False, max_delay=30 * MS), [False, False, True]),
+            "m6_profile_fixed": t(None, [False, True]),
+            "m6_profile_never": t(None, [False, False, False, False, False]),
+            "m6_pass": t(fixed(1, 50 * MS), [True])}}))
+    return out
+
+
 def doc_attempts(eff, pat, dflt):
     """documented attempt count: min(first passing attempt, retries + 1)"""
     total = eff["count"] + 1
@@ -254,8 +276,9 @@ def doc_attempts(eff, pat, dflt):
 
 
 def check_attempt_loop(chk, binary, r, thorough):
-    nsc = 48 if thorough else 6
-    scenarios = [rig_scenario(r, i) for i in range(nsc)]
+    scenarios = directed_rig_scenarios()
+    scenarios += [rig_scenario(r, i) for i in range(48 if thorough else 6)]
+    nsc = len(scenarios)
     cases = [rig.prepare(f"c07_{i}", sc) for i, sc in enumerate(scenarios)]
     results = [vlib.run_impl(binary, "backoff", [c], shards=1)[0] for c in cases]
     none = dict(kind="fixed", count=0, delay=0, jitter=False, max_delay=None)
@@ -390,10 +413,64 @@ def check_delay_lists(chk, pols, binary, tag):
     return True
 
 
+TIE_IMPORTS = ["Base.Str", "Model.Clocks", "Model.UnitTimers", "Proofs.DelayProps", "Model.DelayWait",
+               "Proofs.DelayTie", "gen.GenPauseTable"]
+TIE_PRELUDE = """
+Definition enc_w (w : wstate) : list N :=
+  match w with
+  | Waiting r p => [0; r; if p then 1 else 0]
+  | Done Expired => [1] | Done CutShort => [2] | WPanicked => [3]
+  end.
+Definition both (es : list devent) : list (list N) :=
+  [enc_w (wabs_out (drun pause_table (dinit 2) es)); enc_w (wrun 2 (map wev es))].
+"""
+
+
+def delay_tie_counterexample():
+    """the certificate dcert2 failed for the regenerated pause table: look for a shortest request
+    sequence on which the retry-delay loop with the generated Stop / Continue arms and the
+    DelayWait machine (about which C07_not_sooner etc. are proved) disagree"""
+    import itertools
+    ok, out = vlib.coq_make(["gen/GenPauseTable.vo", "Proofs/DelayTie.vo"])
+    if not ok:
+        return None
+    evs = {"Stop": "DReq RStop", "Continue": "DReq RContinue", "1 ns passes": "DTick 1", "sleep fires": "DFire"}
+    seqs = [list(x) for n in range(1, 5) for x in itertools.product(evs, repeat=n)]
+    vals = vlib.coq_eval("c07tie", TIE_IMPORTS, [f"both {coq_list([evs[e] for e in sq])}" for sq in seqs],
+                         TIE_PRELUDE)
+    show = lambda w: {0: f"waiting, {w[1] if len(w) > 1 else '?'} ns left, {'stopped' if len(w) > 2 and w[2] else 'running'}",
+                      1: "expired", 2: "cut short", 3: "panicked"}[w[0]]
+    for sq, (gen_w, hand_w) in zip(seqs, vals):
+        if gen_w != hand_w:
+            return dict(request_sequence=sq, delay_ns=2, loop_with_generated_arms=show(gen_w), wait_machine=show(hand_w))
+    return None
+
+
 def run(tier, seed):
     chk = vlib.Check(PROP, tier, seed)
+    # the Stop / Continue arms of handle_delay_between_attempts are regenerated from executor.rs
+    # (C12's translator); Proofs/DelayTieCert.v re-establishes dcert2 for them
+    import units_e2e
+    tbl_ok, tbl_msg = units_e2e.regen_table()
+    if not tbl_ok:
+        chk.violation("broken-obligation", "pause-table-translator", dict(error=tbl_msg), no_input=True)
     gate = vlib.coq_gate(PROP)
-    vlib.gate_or_violation(chk, gate)
+    if not gate["ok"] and tbl_ok:
+        cex = None
+        try:
+            cex = delay_tie_counterexample()
+        except Exception as ex:
+            vlib.log("C07: search for a delay-loop counterexample failed: " + str(ex)[-500:])
+        if cex:
+            chk.violation("counterexample", "cert:delay-loop",
+                          dict(clause="on this request sequence the wait between attempts, with the Stop / Continue "
+                                      "arms read from executor.rs, does not behave as the pausable wait about which "
+                                      "'not sooner than the delay' is proved", input=cex,
+                               delay_arms=[l for l in tbl_msg.splitlines() if "t_delay" in l], problems=gate["problems"]))
+        else:
+            vlib.gate_or_violation(chk, gate)
+    else:
+        vlib.gate_or_violation(chk, gate)
     binary, err = vlib.build_harness()
     if binary is None:
         chk.violation("broken-obligation", "harness-build", dict(error=err), no_input=True)
@@ -580,15 +657,28 @@ def run(tier, seed):
         "the attempt loop is tied by running the real TestRunner (public API, direct spawn, no-op signal "
         "handler) on scripted shell-script test binaries; cancellation during the delay, signals and the "
         "accuracy of real sleeping are left to the end-to-end rig",
+        "the command-line / environment path (--retries N, NEXTEST_RETRIES=N, both) is run on the real "
+        "cargo-nextest binary over the puppet workspace (lib/e2e_retries.py); 'no delay when forced' is "
+        "judged on the puppet's own clock as start(k+1) - end(k) < (smallest delay the test's own policy "
+        "could give, >= 1.5 s configured) - 0.5 s",
         "deserialize_retry_policy is exercised through toml::from_str on `retries = ...` (hook H3), "
         "not through the config crate's layered loader",
+        "the Stop / Continue arms of the wait between attempts are read from executor.rs by "
+        "harness/src/bin/pause_table.rs on every run (an arm it cannot translate is an error); the expiry, "
+        "cancellation and query arms of the wait machine are hand-written",
     ]
     # end-to-end stage: generated multi-test runs of the real cargo-nextest over the scripted puppet
     # workspace, judged by this property's oracle (lib/e2e_general.py)
     try:
         import e2e_general
         e2e_general.stage(chk, PROP, tier, seed)
+        # --retries / NEXTEST_RETRIES on the real binary x configured policies with delays
+        # (lib/e2e_retries.py): attempt count = min(first pass, N+1), no delay when forced, the
+        # configured delay (never sooner) when not
+        import e2e_retries
+        _, forced_runs, forced_tests = e2e_retries.stage(chk, PROP, tier, seed)
     except RuntimeError as ex:
+        forced_runs = forced_tests = 0
         chk.violation("broken-obligation", "e2e-build", dict(error=str(ex)[-3000:]), no_input=True)
     # whole-life stage (Model/UnitLife.v): the retry delay counted in unstopped time when SIGTSTP / SIGCONT land
     # in it; cancellation reaching a unit in its delay, or consumed by an attempt that then fails with retries left
@@ -621,14 +711,19 @@ def run(tier, seed):
                   "runs of the real runner (test = effective policy x pass/fail pattern; non-trivial = at "
                   "least one retry allowed)",
              traces_validated_against_impl=chk.counts.get("delay_list_cases", 0) +
-             chk.counts.get("base_delay_cases", 0) + chk.counts.get("attempt_loop_cases", 0)))
+             chk.counts.get("base_delay_cases", 0) + chk.counts.get("attempt_loop_cases", 0) + forced_tests))
 
 
 def replay(path, seed):
     d = json.load(open(path))
     print(json.dumps(d, indent=1)[:3000])
-    binary, err = vlib.build_harness()
     inp = d.get("input")
+    if isinstance(inp, dict) and "forced_scenario" in inp:
+        import e2e_retries
+        why = e2e_retries.replay(d)
+        print("oracle now:", why or "accepts")
+        return 1 if why else 0
+    binary, err = vlib.build_harness()
     if isinstance(inp, dict) and inp.get("op") == "delays" and not inp.get("jitter"):
         p = dict(kind=inp["kind"], count=inp["count"], delay=int(inp["delay"]), jitter=False,
                  max_delay=None if inp["max_delay"] is None else int(inp["max_delay"]), tag="replay")
